@@ -8,6 +8,9 @@ NA_ALL = {
  'C15': 'Circuit shape / pinned Groth16 keys: needs Groth16 proving and pairing evaluation on concrete keys (whole-program runs through ark-groth16, no symbolic content) and a dataflow statement about arkworks\' synthesiser; no solver verdict over the real code is within reach (DESIGN §4).',
 }
 CHECKS = {
+ 'C16': dict(level='proof', technique='constant bodies of bls12_377.rs evaluated on the MIR; defining equations (Frobenius coefficients as powers of the non-residue in Fp2, curve/twist equations, order chains, cofactor formulas) as ground SMT decided by z3; Fp trait layer as in C10/C11',
+      text='Partial claim: every literal of the BLS12-377 configuration is evaluated from its real MIR body and shown to satisfy its defining equation and to occur in the reference crate\'s source; the Fp implementation the generic engine is instantiated with is checked at the operator/conversion level. Pairing outputs for all inputs, bilinearity and non-degeneracy are not decided (the engine is ark-ec\'s generic code).',
+      note='Trusted: ark-ec generic Bls12 engine; configuration equality implies engine equality. Replay compares the two engines natively (generators, multiples, Frobenius maps, cofactor methods, pairings, decoders).', ref='§3 C16'),
  'C01': dict(level='proof', technique='derived: union of the C02 / C03 / C09 obligations (MIR symbolic execution, z3 identities and certificates) plus coordinate-level negate check; native round-trip replay before any VIOLATION',
       text='C01 is decided as C02 (decode = specification decoder, all byte strings, all entry points) and C03 (encode = specification encoder, representation independent) and contract S (C09) for both builds, plus the Decaf bijection theorem which is trusted and stated; the check runs the union of those obligations.',
       note='Trusted: the Decaf bijection theorem for (a,d,q); everything else as in C02/C03/C09.', ref='§3 C01'),
